@@ -14,10 +14,10 @@ import (
 
 // Cfg tells the Lean model which of the patched behaviours the tree under test shows
 // (probed once per run on three canary schemas; see Containers.lean `Cfg`).
-type Cfg struct{ SlicePrepend, RecordKeyPath, InterPath, LazyWrap bool }
+type Cfg struct{ SlicePrepend, RecordKeyPath, InterPath, LazyWrap, OwValidates bool }
 
 func (c Cfg) Tok() string {
-	return b01(c.SlicePrepend) + b01(c.RecordKeyPath) + b01(c.InterPath) + b01(c.LazyWrap)
+	return b01(c.SlicePrepend) + b01(c.RecordKeyPath) + b01(c.InterPath) + b01(c.LazyWrap) + b01(c.OwValidates)
 }
 
 // Probe detects the three path behaviours.
@@ -52,6 +52,12 @@ func Probe() Cfg {
 	hx.Safely(func() {
 		_, err := types.LazyAny(func() any { return types.Slice[string](types.String()) }).ParseAny(true)
 		c.LazyWrap = err != nil
+	})
+	hx.Safely(func() {
+		// does a container with an Overwrite check still validate its elements? (engine.validatePointer's pre-pass)
+		z := types.Slice[string](types.String().Min(3)).Overwrite(func(xs []string) []string { return xs })
+		_, err := z.ParseAny([]string{"ab"})
+		c.OwValidates = err != nil
 	})
 	return c
 }
